@@ -346,6 +346,8 @@ func (k Keeper) CloseBatchAuction(ctx context.Context, auction types.AuctionI) e
 	// Close the auction when maximum extended round + 1 is the same as the length of end times
 	// If the value of MaxExtendedRound is 0, it means that an auctioneer does not want have an extended round
 	if ba.MaxExtendedRound+1 == uint32(len(auction.GetEndTimes())) {
+		setMatchedPrice(ba, mInfo)
+
 		if err := k.AllocateSellingCoin(ctx, auction, mInfo); err != nil {
 			return err
 		}
@@ -380,6 +382,8 @@ func (k Keeper) CloseBatchAuction(ctx context.Context, auction types.AuctionI) e
 		return k.ExtendRound(ctx, ba)
 	}
 
+	setMatchedPrice(ba, mInfo)
+
 	if err := k.AllocateSellingCoin(ctx, auction, mInfo); err != nil {
 		return err
 	}
@@ -397,6 +401,16 @@ func (k Keeper) CloseBatchAuction(ctx context.Context, auction types.AuctionI) e
 	}
 
 	return nil
+}
+
+// setMatchedPrice updates the matched price of the batch auction with the final matching result.
+// It is stored together with the status update when the auction is closed.
+// The matched price is zero when nothing is matched.
+func setMatchedPrice(ba *types.BatchAuction, mInfo MatchingInfo) {
+	ba.MatchedPrice = math.LegacyZeroDec()
+	if !mInfo.MatchedPrice.IsNil() {
+		ba.MatchedPrice = mInfo.MatchedPrice
+	}
 }
 
 // CreateFixedPriceAuction handles types.MsgCreateFixedPriceAuction and create a fixed price auction.
